@@ -1,18 +1,402 @@
+/* C15 -- Vertex4 and its precomputed Matsubara storage (include/pomerol/MatsubaraContainers.h,
+ * src/pomerol/Vertex4.cpp).
+ *
+ *   MatsubaraContainer4<Vertex4>::fill / operator()   (instantiated by the compiler in Vertex4.cpp)
+ *   Vertex4::value                                     (pin against the \mainpage definition, Misc.h)
+ *   Vertex4::operator() / compute                      (thin wrappers, on top of the container contracts)
+ *   MatsubaraContainer1<Src>::fill / operator()        (never instantiated inside the library: specs/inst_matsubara.cpp)
+ *
+ * All statements hold for EVERY window size N in [0,2^40] and every triple in [-2^40,2^40]^3; the
+ * containers are ghost-element models (stubs/gvec.h), nothing is unwound or bounded.
+ */
 #include "../stubs/common.h"
 #include "../stubs/cplx.h"
+#include "../stubs/gvec.h"
 //@include types_common.inc
 //@type std::vector<long(, std::allocator<long> ?)?> => VecLong ptr
 //@type std::vector<(Pomerol::)?ComplexMatrixType(, .*)?>|std::vector<Eigen::Matrix<std::complex<double>, -1, -1, 1(, -1, -1)?>(, .*)?> => VecCMat ptr
 //@type (Pomerol::)?ComplexMatrixType|Eigen::Matrix<std::complex<double>, -1, -1, 1(, -1, -1)?> => CMat ptr
+//@type (Pomerol::)?ComplexVectorType|Eigen::Matrix<std::complex<double>, -1, 1(, 0)?(, -1, 1)?> => CVec ptr
+//@type (Pomerol::)?MatsubaraContainer4<(Pomerol::)?Vertex4> => struct MC4 ptr
 //@record Pomerol::MatsubaraContainer4 => struct MC4 ptr
+//@type (Pomerol::)?MatsubaraContainer1<(Pomerol::)?Src1> => struct MC1 ptr
+//@record Pomerol::MatsubaraContainer1 => struct MC1 ptr
+//@free abs(long) => l_abs
 //@tu src/pomerol/Vertex4.cpp
-typedef struct VecLong {long size;} VecLong;
-typedef struct CMat {long size;} CMat;
-typedef struct VecCMat {long size;} VecCMat;
-//@struct Pomerol::MatsubaraContainer4
-//@function Pomerol::MatsubaraContainer4<Pomerol::Vertex4>::operator()(long, long, long) const as MC4_call
-//@end
+//@enum ComputableObject::
+
+/* dependencies of Vertex4::value: opaque objects with an identity; their values are opaque functions
+ * of (identity, frequency arguments) */
+struct TwoParticleGF { long id; };
+struct GreensFunction { long id; };
+struct Vertex4;
+//@struct Pomerol::MatsubaraContainer4<Pomerol::Vertex4>
+//@struct Pomerol::Vertex4 embed=Chi4,G13,G24,G14,G23
+
+/* ======================= SPEC (written from the documentation, not from the code) =======================
+ * Header comment of fill():  omega_1 = nu, omega_3 = nu', omega_1+omega_2 = Omega; the layout is
+ * "bosonic index major": slice V holds the bosonic frequency Omega = V - 2N (V = 0 is the smallest
+ * possible sum n1+n2 = -2N of two fermionic indices of the window [-N,N)); inside a slice the
+ * fermionic indices nu, nu' are counted from the smallest index lo(Omega) for which both nu and
+ * Omega-nu lie in the window [-N,N):  lo = max(-N, Omega-N+1),  hi = min(N, Omega+N+1) (exclusive).
+ * The window therefore consists of the triples whose FOUR fermionic indices n1,n2,n3,n1+n2-n3 lie in [-N,N).
+ */
+#define NMAX (1L << 40)
+#define SP_OMEGA(N, V)      ((V) - 2 * (N))
+#define SP_LO(N, Om)        ((((Om) - (N) + 1) > -(N)) ? ((Om) - (N) + 1) : -(N))
+#define SP_HI(N, Om)        ((((Om) + (N) + 1) < (N)) ? ((Om) + (N) + 1) : (N))
+#define SP_SIZE(N, Om)      (SP_HI(N, Om) - SP_LO(N, Om))
+#define SP_NSLICES(N)       ((N) == 0 ? 0 : 4 * (N) - 1)       /* number of Omega with a non-empty slice: -2N .. 2N-2 */
+/* slot_triple(N,V,nu,nup) = (n1,n2,n3) */
+#define SP_N1(N, V, nu)     (SP_LO(N, SP_OMEGA(N, V)) + (nu))
+#define SP_N3(N, V, nup)    (SP_LO(N, SP_OMEGA(N, V)) + (nup))
+#define SP_N2(N, V, nu)     (SP_OMEGA(N, V) - SP_N1(N, V, nu))
+#define IN1(N, n)           (-(N) <= (n) && (n) < (N))
+#define IN_WINDOW(N, a, b, c) (IN1(N, a) && IN1(N, b) && IN1(N, c) && IN1(N, (a) + (b) - (c)))
+#define SLOT_V_VALID(N, V)  (0 <= (V) && (V) < SP_NSLICES(N))
+#define SLOT_VALID(N, V, nu, nup) (SLOT_V_VALID(N, V) && 0 <= (nu) && (nu) < SP_SIZE(N, SP_OMEGA(N, V)) && 0 <= (nup) && (nup) < SP_SIZE(N, SP_OMEGA(N, V)))
+#define GBOX(x)             (-(1L << 44) <= (x) && (x) <= (1L << 44))
+#define BOX(n)              (-NMAX <= (n) && (n) <= NMAX)
+#define DBITS(x)            (*(const unsigned long *)&(x))     /* bit pattern of a double lvalue (no call: usable in loop invariants) */
+#define C_SAMEBITS(a, b)    (DBITS((a).re) == DBITS((b).re) && DBITS((a).im) == DBITS((b).im))
+
+/* ghost state */
+long g_N;                         /* window size */
+long g_V, g_nu, g_nup;            /* ghost slot (arbitrary) */
+struct Vertex4 *g_src;            /* the source object handed to fill */
+long g_hits;                      /* fill: number of source evaluations at the ghost slot's triple */
+unsigned long g_calls;            /* number of source evaluations (wraps: only compared with 0/1 on loop-free paths) */
+long g_a1, g_a2, g_a3;            /* arguments of the last source evaluation */
+cplx g_expect;                    /* = vertex_uf(slot_triple(ghost)) (calls are not allowed in loop invariants) */
+#define GHOST_VALID  SLOT_VALID(g_N, g_V, g_nu, g_nup)
+#define G_N1 SP_N1(g_N, g_V, g_nu)
+#define G_N2 SP_N2(g_N, g_V, g_nu)
+#define G_N3 SP_N3(g_N, g_V, g_nup)
+
+/* the value of the source object: an opaque function of the triple */
+double __CPROVER_uninterpreted_vtx_re(long, long, long);
+double __CPROVER_uninterpreted_vtx_im(long, long, long);
+static inline cplx vertex_uf(long n1, long n2, long n3)
+{ cplx c = {__CPROVER_uninterpreted_vtx_re(n1, n2, n3), __CPROVER_uninterpreted_vtx_im(n1, n2, n3)}; return c; }
+
+/* MONITOR for pSource->value(n1,n2,n3) as called by the container */
+//@rename Vertex4_value => Vertex4_value_mon
+cplx Vertex4_value_mon(struct Vertex4 *src, long n1, long n2, long n3)
+{
+  __CPROVER_assert(src == g_src, "C15: the container evaluates the source object it was filled from");
+#ifdef MON_FILL
+  /* soundness of fill: only triples of the window are precomputed */
+  __CPROVER_assert(IN_WINDOW(g_N, n1, n2, n3), "C15: fill evaluates the source only at triples of the window");
+  if (GHOST_VALID && n1 == G_N1 && n2 == G_N2 && n3 == G_N3) { g_hits++; REACH("fill_hit"); }
+#else
+  g_calls++; g_a1 = n1; g_a2 = n2; g_a3 = n3;    /* lookup: number and arguments of the evaluations */
+#endif
+  REACH("value");
+  return vertex_uf(n1, n2, n3);
+}
+
+/* ======================= MatsubaraContainer4<Vertex4>::fill ======================= */
+#define VALS (&self->Values)
+#define OFFS (&self->FermionicIndexOffset)
+#define HITCELL (g_hits == 1 && C_SAMEBITS(self->Values.g.gcell, g_expect))
+#define HIT_INV(passed) ((GHOST_VALID && (passed)) ? HITCELL : g_hits == 0)
 //@function Pomerol::MatsubaraContainer4<Pomerol::Vertex4>::fill(Pomerol::Vertex4 const*, long) as MC4_fill
+//@contract
+__CPROVER_requires(__CPROVER_is_fresh(self, sizeof(*self)))
+__CPROVER_requires(0 <= NumberOfMatsubaras && NumberOfMatsubaras <= NMAX && g_N == NumberOfMatsubaras && g_src == pSource)
+/* any prior state of the container */
+__CPROVER_requires(0 <= self->Values.size && self->Values.size <= GVEC_MAXSIZE && 0 <= self->FermionicIndexOffset.size && self->FermionicIndexOffset.size <= GVEC_MAXSIZE)
+__CPROVER_requires(-1 <= self->Values.cur && self->Values.cur < self->Values.size && -1 <= self->FermionicIndexOffset.cur && self->FermionicIndexOffset.cur < self->FermionicIndexOffset.size)
+/* ghost slot: arbitrary inside a box that contains every valid slot */
+__CPROVER_requires(GBOX(g_V) && GBOX(g_nu) && GBOX(g_nup))
+__CPROVER_requires(self->Values.gidx == g_V && self->FermionicIndexOffset.gidx == g_V && self->Values.g.gi == g_nu && self->Values.g.gj == g_nup)
+__CPROVER_requires(g_hits == 0 && C_SAME(g_expect, vertex_uf(G_N1, G_N2, G_N3)))
+__CPROVER_assigns(self->NumberOfMatsubaras, self->pSource, self->Values, self->FermionicIndexOffset, g_hits)
+__CPROVER_ensures(self->NumberOfMatsubaras == NumberOfMatsubaras && self->pSource == pSource)
+/* one slice per bosonic frequency with a non-empty window */
+__CPROVER_ensures(self->Values.size == SP_NSLICES(g_N) && self->FermionicIndexOffset.size == SP_NSLICES(g_N))
+/* (g: slice V) offset and shape of the slice */
+__CPROVER_ensures(SLOT_V_VALID(g_N, g_V) ==> (self->FermionicIndexOffset.gval == SP_LO(g_N, SP_OMEGA(g_N, g_V)) &&
+                  self->Values.g.rows == SP_SIZE(g_N, SP_OMEGA(g_N, g_V)) && self->Values.g.cols == SP_SIZE(g_N, SP_OMEGA(g_N, g_V))))
+/* (g: slot) the source is evaluated exactly once at the slot's triple, and the slot holds that value */
+__CPROVER_ensures(GHOST_VALID ==> (g_hits == 1 && C_SAME(self->Values.g.gcell, vertex_uf(G_N1, G_N2, G_N3))))
+__CPROVER_ensures(!GHOST_VALID ==> g_hits == 0)
+//@loop 1
+__CPROVER_assigns(BosonicIndexV, g_hits,
+                  self->Values.g.rows, self->Values.g.cols, self->Values.g.gcell, self->Values.g.other, self->Values.cur, self->Values.curm,
+                  self->FermionicIndexOffset.gval, self->FermionicIndexOffset.cur, self->FermionicIndexOffset.curval)
+__CPROVER_loop_invariant(0 <= BosonicIndexV && BosonicIndexV <= 4 * NumberOfMatsubaras - 1)
+__CPROVER_loop_invariant(HIT_INV(BosonicIndexV > g_V))
+__CPROVER_loop_invariant((SLOT_V_VALID(g_N, g_V) && BosonicIndexV > g_V) ==> (self->FermionicIndexOffset.gval == SP_LO(g_N, SP_OMEGA(g_N, g_V)) &&
+                  self->Values.g.rows == SP_SIZE(g_N, SP_OMEGA(g_N, g_V)) && self->Values.g.cols == SP_SIZE(g_N, SP_OMEGA(g_N, g_V))))
+__CPROVER_decreases(4 * NumberOfMatsubaras - 1 - BosonicIndexV)
+//@loop 2
+__CPROVER_assigns(NuIndexM, g_hits,
+                  self->Values.g.gcell, self->Values.g.other, self->Values.curm.other)
+__CPROVER_loop_invariant(0 <= NuIndexM && NuIndexM <= FermionicMatrixSize)
+__CPROVER_loop_invariant(HIT_INV(BosonicIndexV > g_V || (BosonicIndexV == g_V && NuIndexM > g_nu)))
+__CPROVER_decreases(FermionicMatrixSize - NuIndexM)
+//@loop 3
+__CPROVER_assigns(NupIndexM, g_hits,
+                  self->Values.g.gcell, self->Values.g.other, self->Values.curm.other)
+__CPROVER_loop_invariant(0 <= NupIndexM && NupIndexM <= FermionicMatrixSize)
+__CPROVER_loop_invariant(HIT_INV(BosonicIndexV > g_V || (BosonicIndexV == g_V && (NuIndexM > g_nu || (NuIndexM == g_nu && NupIndexM > g_nup)))))
+__CPROVER_decreases(FermionicMatrixSize - NupIndexM)
 //@end
+
+//@harness h_MC4_fill enforce=MC4_fill props=C15,C17 min_obl=100 reach=3 timeout=600 defs=-DMON_FILL
+void h_MC4_fill(void)
+{
+  struct MC4 *c; struct Vertex4 *src; long N;
+  MC4_fill(c, src, N);
+  REACH("exit");
+}
+
+/* ======================= MatsubaraContainer4<Vertex4>::operator() =======================
+ * Class invariant CINV of a filled container = post-condition of fill (proved there for an arbitrary slice /
+ * slot, hence for all).  It is needed at the slice the lookup touches; the ghost slice is therefore
+ * instantiated at Omega = n1+n2 whenever that slice exists (lemma L3 below shows that no other slice can
+ * hold the triple), the ghost cell (nu,nu') stays arbitrary. */
+#define N_ (self->NumberOfMatsubaras)
+#define n1_ MatsubaraNumber1
+#define n2_ MatsubaraNumber2
+#define n3_ MatsubaraNumber3
+#define CINV_SIZES(self)  ((self)->Values.size == SP_NSLICES(g_N) && (self)->FermionicIndexOffset.size == SP_NSLICES(g_N))
+#define CINV_SLICE(self)  (SLOT_V_VALID(g_N, g_V) ==> ((self)->FermionicIndexOffset.gval == SP_LO(g_N, SP_OMEGA(g_N, g_V)) && \
+                           (self)->Values.g.rows == SP_SIZE(g_N, SP_OMEGA(g_N, g_V)) && (self)->Values.g.cols == SP_SIZE(g_N, SP_OMEGA(g_N, g_V))))
+#define CINV_CELL(self)   (GHOST_VALID ==> C_SAME((self)->Values.g.gcell, vertex_uf(G_N1, G_N2, G_N3)))
+#define GHOST_IS(a, b, c) (GHOST_VALID && G_N1 == (a) && G_N2 == (b) && G_N3 == (c))
+//@function Pomerol::MatsubaraContainer4<Pomerol::Vertex4>::operator()(long, long, long) const as MC4_call
+//@contract
+__CPROVER_requires(__CPROVER_is_fresh(self, sizeof(*self)))
+__CPROVER_requires(0 <= N_ && N_ <= NMAX && g_N == N_ && g_src == self->pSource)
+__CPROVER_requires(BOX(n1_) && BOX(n2_) && BOX(n3_))
+__CPROVER_requires(GBOX(g_V) && GBOX(g_nu) && GBOX(g_nup))
+__CPROVER_requires(self->Values.gidx == g_V && self->FermionicIndexOffset.gidx == g_V && self->Values.g.gi == g_nu && self->Values.g.gj == g_nup)
+__CPROVER_requires(SLOT_V_VALID(g_N, n1_ + n2_ + 2 * g_N) ==> g_V == n1_ + n2_ + 2 * g_N)
+__CPROVER_requires(CINV_SIZES(self) && CINV_SLICE(self) && CINV_CELL(self))
+__CPROVER_requires(g_calls == 0)
+__CPROVER_assigns(g_calls, g_a1, g_a2, g_a3, self->Values.cur, self->Values.curm, self->Values.g.other,
+                  self->FermionicIndexOffset.cur, self->FermionicIndexOffset.curval)
+/* inside the window: no evaluation of the source ... */
+__CPROVER_ensures(IN_WINDOW(g_N, n1_, n2_, n3_) == (g_calls == 0))
+/* ... the value comes from the slot whose stored triple is (n1,n2,n3) (g: slot), which holds value(n1,n2,n3) */
+__CPROVER_ensures(GHOST_IS(n1_, n2_, n3_) ==> (g_calls == 0 && C_SAME(__CPROVER_return_value, __CPROVER_old(self->Values.g.gcell))))
+/* outside: exactly one evaluation, with the same arguments */
+__CPROVER_ensures(!IN_WINDOW(g_N, n1_, n2_, n3_) ==> (g_calls == 1 && g_a1 == n1_ && g_a2 == n2_ && g_a3 == n3_))
+/* transparency: in both cases the result is value(n1,n2,n3) */
+__CPROVER_ensures((GHOST_IS(n1_, n2_, n3_) || !IN_WINDOW(g_N, n1_, n2_, n3_)) ==> C_SAME(__CPROVER_return_value, vertex_uf(n1_, n2_, n3_)))
+//@end
+
+//@harness h_MC4_call enforce=MC4_call props=C15,C17 min_obl=100 reach=4 timeout=300
+void h_MC4_call(void)
+{
+  struct MC4 *c; long n1, n2, n3;
+  cplx r = MC4_call(c, n1, n2, n3);
+  if (g_calls == 0) REACH("cached"); else REACH("miss");
+  if (GHOST_IS(n1, n2, n3)) REACH("ghost_cell_read");
+  REACH("exit");
+}
+
+/* Index lemmas about the SPEC functions (loop-free, all N in [0,2^40]): the valid slots and the triples of the
+ * window are in bijection through slot_triple.  L1/L2 make the conditional post-conditions above non-vacuous
+ * (every triple of the window is the triple of a valid slot), L3 justifies the instantiation of the ghost slice.
+ * (three harnesses: one SAT instance for all of them takes 2 min, separately 3-20 s each) */
+static void mc4_index_lemma(int which)
+{
+  long N = nondet_long(), n1 = nondet_long(), n2 = nondet_long(), n3 = nondet_long();
+  long V = nondet_long(), nu = nondet_long(), nup = nondet_long();
+  if (!(0 <= N && N <= NMAX && BOX(n1) && BOX(n2) && BOX(n3) && GBOX(V) && GBOX(nu) && GBOX(nup))) return;
+  /* L1: a triple of the window is the triple of the valid slot (n1+n2+2N, n1-lo, n3-lo) */
+  if (which == 1 && IN_WINDOW(N, n1, n2, n3)) {
+    long W = n1 + n2 + 2 * N, a = n1 - SP_LO(N, n1 + n2), b = n3 - SP_LO(N, n1 + n2);
+    __CPROVER_assert(SLOT_VALID(N, W, a, b), "C15 L1: every triple of the window has a valid slot");
+    __CPROVER_assert(SP_N1(N, W, a) == n1 && SP_N2(N, W, a) == n2 && SP_N3(N, W, b) == n3, "C15 L1: ... whose triple it is");
+    REACH("L1");
+  }
+  /* L2: the triple of a valid slot lies in the window */
+  if (which == 2 && SLOT_VALID(N, V, nu, nup)) {
+    __CPROVER_assert(IN_WINDOW(N, SP_N1(N, V, nu), SP_N2(N, V, nu), SP_N3(N, V, nup)), "C15 L2: the triple of a valid slot lies in the window");
+    REACH("L2");
+  }
+  /* L3: slot_triple is injective: the slot of a triple is unique (slice = n1+n2+2N) */
+  if (which == 3 && SLOT_VALID(N, V, nu, nup) && SP_N1(N, V, nu) == n1 && SP_N2(N, V, nu) == n2 && SP_N3(N, V, nup) == n3) {
+    __CPROVER_assert(V == n1 + n2 + 2 * N && nu == n1 - SP_LO(N, n1 + n2) && nup == n3 - SP_LO(N, n1 + n2), "C15 L3: the slot of a triple is unique");
+    REACH("L3");
+  }
+  /* the number of slices and the slice sizes of the documentation (4N-1 slices; 2N-|Omega+1| per side) */
+  if (which == 3 && N > 0 && SLOT_V_VALID(N, V)) {
+    long Om = SP_OMEGA(N, V);
+    __CPROVER_assert(SP_SIZE(N, Om) == 2 * N - (Om + 1 < 0 ? -(Om + 1) : Om + 1) && SP_SIZE(N, Om) >= 1, "C15: slice size = 2N-|Omega+1| >= 1");
+    REACH("size");
+  }
+}
+//@harness h_MC4_lemma_L1 enforce=none props=C15 min_obl=10 reach=1 timeout=200 loops=0
+void h_MC4_lemma_L1(void) { mc4_index_lemma(1); }
+//@harness h_MC4_lemma_L2 enforce=none props=C15 min_obl=10 reach=1 timeout=200 loops=0
+void h_MC4_lemma_L2(void) { mc4_index_lemma(2); }
+//@harness h_MC4_lemma_L3 enforce=none props=C15 min_obl=10 reach=2 timeout=200 loops=0
+void h_MC4_lemma_L3(void) { mc4_index_lemma(3); }
+
+/* ======================= Vertex4::value =======================
+ * Documentation (\mainpage of include/pomerol/Misc.h, "Conventions"):
+ *   chi^0_1234(w1,w2;w3,w4) = beta d(w1,w4) d(w2,w3) G14(w1) G23(w2) - beta d(w1,w3) d(w2,w4) G13(w1) G24(w2)
+ *   Gamma_1234 = chi_1234 - chi^0_1234,            w4 = w1+w2-w3
+ * With w4 = w1+w2-w3:  d(w1,w4) d(w2,w3) = [n2==n3],  d(w1,w3) d(w2,w4) = [n1==n3].  Hence
+ *   Gamma(n1,n2,n3) = chi(n1,n2,n3) + [n1==n3] beta G13(n1) G24(n2) - [n2==n3] beta G14(n1) G23(n2).
+ * PIN: this expression, evaluated left to right, products as (beta*Ga)*Gb, a Kronecker delta = the term is
+ * present or absent.  (Machine arithmetic is uninterpreted: + and * commutative, no associativity, so
+ * chi - (A - B) and (chi + B) - A are different trees; the pin uses the second, expanded form.)
+ * chi, G13, ... are opaque functions of (object identity, arguments). */
+double __CPROVER_uninterpreted_chi_re(long, long, long, long);
+double __CPROVER_uninterpreted_chi_im(long, long, long, long);
+double __CPROVER_uninterpreted_gf_re(long, long);
+double __CPROVER_uninterpreted_gf_im(long, long);
+cplx TwoParticleGF_call(struct TwoParticleGF *x, long n1, long n2, long n3)
+{ cplx c = {__CPROVER_uninterpreted_chi_re(x->id, n1, n2, n3), __CPROVER_uninterpreted_chi_im(x->id, n1, n2, n3)}; REACH("chi"); return c; }
+cplx GreensFunction_call(struct GreensFunction *g, long n)
+{ cplx c = {__CPROVER_uninterpreted_gf_re(g->id, n), __CPROVER_uninterpreted_gf_im(g->id, n)}; REACH("gf"); return c; }
+static cplx spec_vertex(struct Vertex4 *v, long n1, long n2, long n3)
+{
+  cplx r = TwoParticleGF_call(&v->Chi4, n1, n2, n3);
+  if (n1 == n3) r = op_add_cplx_cplx(r, op_mul_cplx_cplx(op_mul_double_cplx(v->beta, GreensFunction_call(&v->G13, n1)), GreensFunction_call(&v->G24, n2)));
+  if (n2 == n3) r = op_sub_cplx_cplx(r, op_mul_cplx_cplx(op_mul_double_cplx(v->beta, GreensFunction_call(&v->G14, n1)), GreensFunction_call(&v->G23, n2)));
+  return r;
+}
+/* (a function, not the macro C_SAME: the macro would evaluate the spec expression twice, and every further
+ * application of the uninterpreted arithmetic costs a quadratic number of congruence constraints) */
+static _Bool c_same(cplx a, cplx b) { return C_SAME(a, b); }
 //@function Pomerol::Vertex4::value(long, long, long) const as Vertex4_value
+//@contract
+__CPROVER_requires(__CPROVER_is_fresh(self, sizeof(*self)))
+__CPROVER_assigns()
+__CPROVER_ensures(c_same(__CPROVER_return_value, spec_vertex(self, MatsubaraNumber1, MatsubaraNumber2, MatsubaraNumber3)))
 //@end
+
+//@harness h_Vertex4_value enforce=Vertex4_value props=C15 min_obl=10 reach=3 timeout=120
+void h_Vertex4_value(void)
+{
+  struct Vertex4 *v; long n1, n2, n3;
+  cplx r = Vertex4_value(v, n1, n2, n3);
+  REACH("exit");
+}
+
+/* ======================= Vertex4::operator() and Vertex4::compute: the wrappers around the storage =========
+ * on top of the container contracts (replace-call-with-contract): reading through the storage is transparent */
+//@function Pomerol::Vertex4::operator()(long, long, long) const as Vertex4_call
+//@contract
+__CPROVER_requires(__CPROVER_is_fresh(self, sizeof(*self)))
+__CPROVER_requires(0 <= self->Storage.NumberOfMatsubaras && self->Storage.NumberOfMatsubaras <= NMAX && g_N == self->Storage.NumberOfMatsubaras && g_src == self->Storage.pSource)
+__CPROVER_requires(BOX(n1_) && BOX(n2_) && BOX(n3_))
+__CPROVER_requires(GBOX(g_V) && GBOX(g_nu) && GBOX(g_nup))
+__CPROVER_requires(self->Storage.Values.gidx == g_V && self->Storage.FermionicIndexOffset.gidx == g_V && self->Storage.Values.g.gi == g_nu && self->Storage.Values.g.gj == g_nup)
+__CPROVER_requires(SLOT_V_VALID(g_N, n1_ + n2_ + 2 * g_N) ==> g_V == n1_ + n2_ + 2 * g_N)
+__CPROVER_requires(CINV_SIZES(&self->Storage) && CINV_SLICE(&self->Storage) && CINV_CELL(&self->Storage))
+__CPROVER_requires(g_calls == 0)
+__CPROVER_assigns(g_calls, g_a1, g_a2, g_a3, self->Storage.Values.cur, self->Storage.Values.curm, self->Storage.Values.g.other,
+                  self->Storage.FermionicIndexOffset.cur, self->Storage.FermionicIndexOffset.curval)
+__CPROVER_ensures((GHOST_IS(n1_, n2_, n3_) || !IN_WINDOW(g_N, n1_, n2_, n3_)) ==> C_SAME(__CPROVER_return_value, vertex_uf(n1_, n2_, n3_)))
+__CPROVER_ensures(IN_WINDOW(g_N, n1_, n2_, n3_) == (g_calls == 0))
+//@end
+//@harness h_Vertex4_call enforce=Vertex4_call replace=MC4_call props=C15 min_obl=10 reach=1 timeout=120
+void h_Vertex4_call(void)
+{
+  struct Vertex4 *v; long n1, n2, n3;
+  cplx r = Vertex4_call(v, n1, n2, n3);
+  REACH("exit");
+}
+
+//@function Pomerol::Vertex4::compute(long) as Vertex4_compute
+//@contract
+__CPROVER_requires(__CPROVER_is_fresh(self, sizeof(*self)))
+__CPROVER_requires(0 <= NumberOfMatsubaras && NumberOfMatsubaras <= NMAX && g_N == NumberOfMatsubaras && g_src == self)
+__CPROVER_requires(0 <= self->Storage.Values.size && self->Storage.Values.size <= GVEC_MAXSIZE && 0 <= self->Storage.FermionicIndexOffset.size && self->Storage.FermionicIndexOffset.size <= GVEC_MAXSIZE)
+__CPROVER_requires(-1 <= self->Storage.Values.cur && self->Storage.Values.cur < self->Storage.Values.size && -1 <= self->Storage.FermionicIndexOffset.cur && self->Storage.FermionicIndexOffset.cur < self->Storage.FermionicIndexOffset.size)
+__CPROVER_requires(GBOX(g_V) && GBOX(g_nu) && GBOX(g_nup))
+__CPROVER_requires(self->Storage.Values.gidx == g_V && self->Storage.FermionicIndexOffset.gidx == g_V && self->Storage.Values.g.gi == g_nu && self->Storage.Values.g.gj == g_nup)
+__CPROVER_requires(g_hits == 0 && C_SAME(g_expect, vertex_uf(G_N1, G_N2, G_N3)))
+__CPROVER_assigns(self->Storage, self->Status, g_hits)
+/* the storage is filled from this very object, satisfies the class invariant of the lookup, and the vertex is Computed */
+__CPROVER_ensures(self->Storage.pSource == self && self->Storage.NumberOfMatsubaras == NumberOfMatsubaras && self->Status == Computed)
+__CPROVER_ensures(CINV_SIZES(&self->Storage) && CINV_SLICE(&self->Storage) && CINV_CELL(&self->Storage))
+__CPROVER_ensures(g_hits == (GHOST_VALID ? 1 : 0))
+//@end
+//@harness h_Vertex4_compute enforce=Vertex4_compute replace=MC4_fill props=C15 min_obl=10 reach=1 timeout=120
+void h_Vertex4_compute(void)
+{
+  struct Vertex4 *v; long N;
+  Vertex4_compute(v, N);
+  REACH("exit");
+}
+
+/* ======================= MatsubaraContainer1<Src1> =======================
+ * Never instantiated in the library (specs/inst_matsubara.cpp instantiates the real template for a minimal
+ * source type).  Window = [-N,N), slot i holds the value at Matsubara number i-N, 2N slots. */
+//@tu /verif/specs/inst_matsubara.cpp
+struct Src1 { long id; };
+//@struct Pomerol::MatsubaraContainer1<Pomerol::Src1>
+long g_i;                         /* ghost slot of the one-frequency container */
+struct Src1 *g_src1;
+double __CPROVER_uninterpreted_src1_re(long);
+double __CPROVER_uninterpreted_src1_im(long);
+static inline cplx src1_uf(long n) { cplx c = {__CPROVER_uninterpreted_src1_re(n), __CPROVER_uninterpreted_src1_im(n)}; return c; }
+#define G1_VALID (0 <= g_i && g_i < 2 * g_N)
+cplx Src1_value(struct Src1 *src, long n)
+{
+  __CPROVER_assert(src == g_src1, "C15: the container evaluates the source object it was constructed for");
+#ifdef MON_FILL
+  __CPROVER_assert(IN1(g_N, n), "C15: fill evaluates the source only inside the window");
+  if (G1_VALID && n == g_i - g_N) { g_hits++; REACH("fill1_hit"); }
+#else
+  g_calls++; g_a1 = n;
+#endif
+  REACH("value1");
+  return src1_uf(n);
+}
+//@function Pomerol::MatsubaraContainer1<Pomerol::Src1>::fill(long) as MC1_fill
+//@contract
+__CPROVER_requires(__CPROVER_is_fresh(self, sizeof(*self)))
+__CPROVER_requires(0 <= NumberOfMatsubaras && NumberOfMatsubaras <= NMAX && g_N == NumberOfMatsubaras && g_src1 == self->pSource)
+__CPROVER_requires(0 <= self->Values.size && GBOX(g_i) && self->Values.gidx == g_i)
+__CPROVER_requires(g_hits == 0 && C_SAME(g_expect, src1_uf(g_i - g_N)))
+__CPROVER_assigns(self->NumberOfMatsubaras, self->Values, g_hits)
+__CPROVER_ensures(self->NumberOfMatsubaras == NumberOfMatsubaras && self->Values.size == 2 * g_N)
+__CPROVER_ensures(G1_VALID ==> (g_hits == 1 && C_SAME(self->Values.gcell, src1_uf(g_i - g_N))))
+__CPROVER_ensures(!G1_VALID ==> g_hits == 0)
+//@loop 1
+__CPROVER_assigns(MatsubaraNum, g_hits, self->Values.gcell, self->Values.other)
+__CPROVER_loop_invariant(-NumberOfMatsubaras <= MatsubaraNum && MatsubaraNum <= NumberOfMatsubaras)
+__CPROVER_loop_invariant((G1_VALID && MatsubaraNum + NumberOfMatsubaras > g_i) ? (g_hits == 1 && C_SAMEBITS(self->Values.gcell, g_expect)) : g_hits == 0)
+__CPROVER_decreases(NumberOfMatsubaras - MatsubaraNum)
+//@end
+//@harness h_MC1_fill enforce=MC1_fill props=C15,C17 min_obl=10 reach=3 timeout=120 defs=-DMON_FILL
+void h_MC1_fill(void)
+{
+  struct MC1 *c; long N;
+  MC1_fill(c, N);
+  REACH("exit");
+}
+
+//@function Pomerol::MatsubaraContainer1<Pomerol::Src1>::operator()(long) const as MC1_call
+//@contract
+__CPROVER_requires(__CPROVER_is_fresh(self, sizeof(*self)))
+__CPROVER_requires(0 <= N_ && N_ <= NMAX && g_N == N_ && g_src1 == self->pSource && BOX(MatsubaraNumber))
+__CPROVER_requires(GBOX(g_i) && self->Values.gidx == g_i)
+/* class invariant = post-condition of fill */
+__CPROVER_requires(self->Values.size == 2 * g_N && (G1_VALID ==> C_SAME(self->Values.gcell, src1_uf(g_i - g_N))))
+__CPROVER_requires(g_calls == 0)
+__CPROVER_assigns(g_calls, g_a1, self->Values.other)
+__CPROVER_ensures(IN1(g_N, MatsubaraNumber) == (g_calls == 0))
+__CPROVER_ensures((IN1(g_N, MatsubaraNumber) && g_i == MatsubaraNumber + g_N) ==> C_SAME(__CPROVER_return_value, __CPROVER_old(self->Values.gcell)))
+__CPROVER_ensures(!IN1(g_N, MatsubaraNumber) ==> (g_calls == 1 && g_a1 == MatsubaraNumber))
+__CPROVER_ensures((!IN1(g_N, MatsubaraNumber) || g_i == MatsubaraNumber + g_N) ==> C_SAME(__CPROVER_return_value, src1_uf(MatsubaraNumber)))
+//@end
+//@harness h_MC1_call enforce=MC1_call props=C15,C17 min_obl=10 reach=4 timeout=120
+void h_MC1_call(void)
+{
+  struct MC1 *c; long n;
+  cplx r = MC1_call(c, n);
+  if (g_calls == 0) REACH("cached"); else REACH("miss");
+  if (g_i == n + g_N) REACH("ghost_cell_read");
+  REACH("exit");
+}
